@@ -53,8 +53,8 @@ def make_sparse_from_indices_and_values(interp_indices, interp_values, num_rows)
         index_tensor = index_tensor.index_select(1, nonzero_indices)
         value_tensor = value_tensor.index_select(0, nonzero_indices)
     else:
-        index_tensor = index_tensor.resize_(interp_indices.dim(), 1).zero_()
-        value_tensor = value_tensor.resize_(1).zero_()
+        index_tensor = index_tensor.new_zeros(interp_indices.dim(), 1)
+        value_tensor = value_tensor.new_zeros(1)
 
     # Make the sparse tensor
     type_name = value_tensor.type().split(".")[-1]  # e.g. FloatTensor
@@ -176,8 +176,8 @@ def sparse_getitem(sparse, idxs):
                 indices = new_indices
                 values = values[mask]
             else:
-                indices.resize_(indices.size(0) - 1, 1).zero_()
-                values.resize_(1).zero_()
+                indices = indices.new_zeros(indices.size(0) - 1, 1)
+                values = values.new_zeros(1)
 
             if not len(size):
                 return sum(values)
@@ -201,8 +201,8 @@ def sparse_getitem(sparse, idxs):
                 indices = new_indices
                 values = values[mask]
             else:
-                indices.resize_(indices.size(0), 1).zero_()
-                values.resize_(1).zero_()
+                indices = indices.new_zeros(indices.size(0), 1)
+                values = values.new_zeros(1)
 
         else:
             raise RuntimeError("Unknown index type")
